@@ -127,7 +127,7 @@ def coq_cbs(percall):
 def run(ctx):
     ctx.rule = ("histories of watch/unwatch/unwatch_all/update on the real GeckoStructure and GeckoAsyncStructure with 5-10 real shipped items "
                 "(2-byte, bit-field and neighbouring items preferred, TempUnits + temperature items included), patches aimed at item boundaries "
-                "(straddling, one byte of a 2-byte item, miss by one, full refresh), updates that switch TempUnits and cover a temperature item whose stored reading stays / moves to the word that reads the same in the other unit, duplicate registrations; callbacks per operation and final block "
+                "(straddling, one byte of a 2-byte item, miss by one, full refresh), patches whose first / last bytes coincide with the block's bytes at the segment-relative index, all-zero start blocks, updates that switch TempUnits and cover a temperature item whose stored reading stays / moves to the word that reads the same in the other unit, duplicate registrations; callbacks per operation and final block "
                 "compared with Model/Notify.v; non-trivial = history in which at least one callback fired and at least one touched item stayed silent")
     ctx.prove(timeout=2400)
     mods = gen_tables.load_tables()
@@ -164,6 +164,8 @@ def run(ctx):
         seen = set()
         its = [x for x in its if not (x["tag"] in seen or seen.add(x["tag"]))][:10]
         blk0 = bytes(rng.randrange(256) for _ in range(1024))
+        if h % 7 == 3:
+            blk0 = bytes(1024)          # a fresh, all-zero block: patching a value back to zero is the 'second cycle' of a device
         if its and its[0]["tag"] == "TempUnits":
             blk0 = blk0[:its[0]["pos"]] + bytes([rng.randrange(2)]) + blk0[its[0]["pos"] + 1:]
         base = h % 2          # odd observer ids are bound methods (see Client): half of the histories register and re-register those
@@ -178,6 +180,11 @@ def run(ctx):
                 ops.append(("U", rng.randrange(len(its)), rng.randrange(3)))
             elif r < 0.35:
                 ops.append(("UA", rng.randrange(len(its))))
+            elif r < 0.41:
+                # a patch that does not start at 0 whose last bytes are the bytes the block holds at the same index counted from the START of
+                # the block (and whose first bytes are the bytes at the same index counted from the start of the patch's own range shifted
+                # by one): any confusion of segment-relative and block-relative positions shows here
+                ops.append(("PT", rng.randrange(len(its)), rng.choice(["tail", "tail", "head"])))
             elif r < 0.47 and its and its[0]["tag"] == "TempUnits":
                 # one update that switches the units and covers a temperature item: its stored reading either stays (nobody may be
                 # told) or moves to the word that reads the same number in the other unit (everybody must be told)
@@ -203,6 +210,22 @@ def run(ctx):
         blk = bytearray(blk0)
         rops = []
         for op in ops:
+            if op[0] == "PT":
+                it = its[op[1]]
+                off = max(1, it["pos"] - rng.choice([0, 1, 2]))
+                ln = it["pos"] + it["length"] - off
+                if ln <= 0 or off + ln > 1024:
+                    continue
+                seg = list(blk[off:off + ln])
+                k = it["length"]
+                if op[2] == "tail":
+                    seg[ln - k:] = list(blk[ln - k:ln])            # = block[index within the segment], counted from the block's start
+                else:
+                    seg[:k] = list(blk[off + 1:off + 1 + k])
+                blk[off:off + ln] = bytes(seg)
+                rops.append(("P", off, seg))
+                ctx.count("position_confusion_patches")
+                continue
             if op[0] == "PU":
                 t_it, u_it = its[op[1]], its[0]
                 lo, hi = min(t_it["pos"], u_it["pos"]), max(t_it["pos"] + 2, u_it["pos"] + 1)
